@@ -144,6 +144,14 @@ func (s *Sim) opRegistry(op *Op) {
 		if s.registered() != before {
 			s.violate("C18", "reg.locked", "consumed", false, "failed registration on a locked world changed the number of IDs from %d to %d", before, s.registered())
 		}
+		// asking again for the same type right away (no other lookup in between) must fail the same way
+		p, _ = s.call(func() { ecs.TypeID(s.W, PadType(k)) })
+		if !p {
+			s.violate("C18", "reg.locked", "retry_no_panic", false, "the second attempt to register the same new component type on a locked world did not panic")
+		}
+		if s.registered() != before {
+			s.violate("C18", "reg.locked", "retry_consumed", false, "a repeated failed registration on a locked world changed the number of IDs from %d to %d", before, s.registered())
+		}
 		// registering an already registered type is not a structural change
 		p, _ = s.call(func() {
 			if got := U[2].ID(s.W); got != s.ids[2] {
